@@ -113,8 +113,8 @@ def generate(rng, nsname, nunits):
 
 
 def render(desc, version):
-    """Source text of `desc` at `version` (version > 0 appends a version marker unit and
-    perturbs a trailing comment so that size and content differ deterministically)."""
+    """Source text of `desc` at `version`: only the value of `version-marker` differs between
+    versions, so an edit keeps the file size (for version < 10) unless the caller pads it."""
     out = [f"(ns {desc['ns']} (:require [basilisp.string :as str]))"]
     n = 0
     for u in desc["units"]:
@@ -123,8 +123,7 @@ def render(desc, version):
         n += 1
     out.append(f"(def version-marker {version})")
     out.append(f'(.append (. (python/__import__ "verif_fx") -effects) {n})')
-    pad = ";" + "v" * (version % 7)
-    return "\n".join(out) + "\n" + pad + "\n"
+    return "\n".join(out) + "\n"
 
 
 def n_effects(desc):
